@@ -12,7 +12,7 @@
 (*   Stepwise  the final state equals the functional ReadFile (C03)       *)
 (*   Unknown   (C12) inserting an unknown option into any header changes  *)
 (*             nothing but that record's options                          *)
-EXTENDS Integers, Sequences, TLC, Reader
+EXTENDS Integers, Sequences, TLC, Json, Reader
 CONSTANTS MaxTok, RawLen
 VARIABLES file, rs, phase, cnt
 vars == <<file, rs, phase, cnt>>
@@ -66,6 +66,9 @@ Spec == Init /\ [][Next]_vars
 (* C08 "terminates": under weak fairness of the step every run of the reader ends *)
 FairSpec == Spec /\ WF_vars(Read) /\ WF_vars(Start)
 Terminates == <>(phase = "read" /\ rs.status # "running")
+
+(* Direction A: every file of the explored space is also handed to the REAL reader *)
+EmitFiles == (phase = "read" /\ rs = R0) => PrintT(<<"BEH", ToJson([f |-> file])>>)
 
 Total == rs.status \in {"running", "done", "error", "short", "unspec"}
 Progress == [][phase = "read" => (rs'.status # "running" \/ rs'.pos > rs.pos)]_vars
